@@ -59,7 +59,7 @@ def cbmat(rows):
 
 
 HEADER = ('From Coq Require Import List ZArith Bool QArith String.\nImport ListNotations.\n'
-          'From FV.C20 Require Import Model Harness.\nOpen Scope Z_scope.\n'
+          'From FV.C20 Require Import Model ModelEdge Harness.\nOpen Scope Z_scope.\n'
           'Set Printing Width 100000.\nSet Printing Depth 100000.\n')
 
 
@@ -343,7 +343,7 @@ def eval_reindex(ctx, jobs, res):
 DTYPES = ['float64', 'int64', 'float64', 'int32', 'bool', 'float32', 'float64']
 
 
-def gen_transfers(rng, knns, tid0=0, short=False, dtype_shift=0):
+def gen_transfers(rng, knns, tid0=0, short=False, dtype_shift=0, knn_shift=None):
     transfers = []
     tid = tid0
     for where in ('nodal', 'elemental'):
@@ -360,7 +360,9 @@ def gen_transfers(rng, knns, tid0=0, short=False, dtype_shift=0):
                     dtype = 'float64' if short else DTYPES[(tid + dtype_shift) % len(DTYPES)]
                     transfers.append({'tid': tid, 'where': where, 'dir': direction,
                                       'shape': shape, 'ncomp': ncomp, 'kind': kind_t, 'dtype': dtype,
-                                      'xmode': xmode, 'knn': rng.choice(knns), 'x': x,
+                                      'xmode': xmode, 'x': x,
+                                      'knn': rng.choice(knns) if knn_shift is None else
+                                      knns[(tid + knn_shift) % len(knns)],
                                       'repeat': 2 if tid % 9 == 4 else 1})
                     tid += 1
     return transfers
@@ -389,7 +391,8 @@ def gen_run_jobs(ctx, n):
     # the first runs are fixed in regime so that the quick tier covers every
     # regime; the rest are random
     plan = [
-        dict(kind='pyr', cos_thresh=0.99, dist_thresh=0.0),
+        # tiny length unit (edges ~1e-9): every threshold of the code must be relative
+        dict(kind='pyr', cos_thresh=0.99, dist_thresh=0.0, scale=2.0 ** -30),
         # thin plate meshed with tets (aspect 0.01): knife edges between nearly opposite
         # normals inside the merged cells; coplanar-only regime, volume must be kept
         dict(kind='tetplate', cos_thresh=0.99, dist_thresh=0.0, mat='identity', n=[4, 3, 2], elem_num=6,
@@ -444,7 +447,7 @@ def gen_run_jobs(ctx, n):
             stretch = [100, rng.choice([100, 60]), rng.choice([1, 2, 5, 10, 14])]
             if mat in ('shear', 'refl3'):
                 mat = 'rot3'
-        scale = p.get('scale', rng.choice([1.0, 1.0, 0.5, 0.25, 2.0 ** -13, 2.0 ** 10]))
+        scale = p.get('scale', rng.choice([1.0, 1.0, 0.5, 0.25, 2.0 ** -13, 2.0 ** 10, 2.0 ** -30, 2.0 ** -36]))
         n_cells, n_nodes = n_cells_nodes(kind, nn)
         idmode = rng.choice(['plain', 'sparse', 'shuffled', 'reversed', 'swap2', 'offset'])
         node_ids = node_perm = None
@@ -496,7 +499,7 @@ def gen_run_jobs(ctx, n):
         if far and p.get('coord_dtype', 'float64') == 'float64':
             t = [rng.choice([-1, 1]) * rng.randint(10 ** 5, 10 ** 6) for _ in range(3)]
         knns = [1, 2, 3, 4]
-        transfers = [] if p.get('no_transfers') else gen_transfers(rng, knns, dtype_shift=i)
+        transfers = [] if p.get('no_transfers') else gen_transfers(rng, knns, dtype_shift=i, knn_shift=i)
         second = p.get('second')
         if second is None and i >= len(plan) and rng.random() < 0.3:
             second = dict(cos_thresh=rng.choice([0.999, 0.99, 0.9999]),
@@ -509,7 +512,8 @@ def gen_run_jobs(ctx, n):
                      'idmode': idmode, 'eidmode': eidmode, 'node_ids': node_ids, 'node_perm': node_perm,
                      'elem_ids': elem_ids, 'crease': crease, 'interleave': bool(p.get('interleave')),
                      'elem_num': elem_num, 'cos_thresh': cos_t, 'dist_thresh': dist_t,
-                     'knns': knns, 'transfers': transfers, 'second': second})
+                     'knns': knns, 'transfers': transfers, 'second': second,
+                     'geo_edges': {'seed': rng.randrange(2 ** 30), 'cells': 3 if thorough else 2, 'steps': 6}})
     return jobs
 
 
@@ -578,6 +582,38 @@ def max_noncoplanar_cos2(cells, pos_nd):
         if val < 1:
             level = max(level, val)
     return level
+
+
+def min_node_dist2(cells, pos_nd):
+    """squared distance of the closest pair of distinct nodes in use.  merge_vertices
+    merges the ends of an edge only if their distance is < dist_thresh; every edge any
+    pass creates joins two distinct nodes in use, and positions move only by merging, so
+    dist_thresh^2 < this value means: NO vertices may be merged (precondition of the
+    volume clause, decided from the input and the parameter alone)"""
+    used = sorted({v for p in cells for f in p for v in f})
+    if len(used) <= 450:
+        P = [[fr(c) for c in pos_nd[v]] for v in used]
+        den = 1
+        for row in P:
+            for c in row:
+                den = den * c.denominator // __import__('math').gcd(den, c.denominator)
+        I = [[int(c * den) for c in row] for row in P]
+        best = None
+        for i in range(len(I)):
+            xi, yi, zi = I[i]
+            for j in range(i):
+                d = (xi - I[j][0]) ** 2 + (yi - I[j][1]) ** 2 + (zi - I[j][2]) ** 2
+                if best is None or d < best:
+                    best = d
+        return None if best is None else Fr(best, den * den)
+    import numpy as np
+    X = np.array([[c[0] / c[1] for c in pos_nd[v]] for v in used], float)
+    X = X - X.mean(axis=0)
+    best = None
+    for i in range(1, len(X)):
+        d = ((X[:i] - X[i]) ** 2).sum(axis=1).min()
+        best = d if best is None else min(best, d)
+    return Fr(float(best)) * Fr(999999, 1000000)       # float path: safety margin
 
 
 # ------------------------------------------------------------ evaluation
@@ -655,6 +691,20 @@ def run_defs(job, r):
                    f'all2 (fun m out => let g := pick [] {nm}_in (group_of {nm}_mconv m) in '
                    f'merge_agree g out && connected_b g) (map Z.of_nat (seq 0 {nm_m})) {nm}_mout'))
     checks.append(('merge_step_total', f'forallb (fun c => 0 <=? c) {nm}_mconv'))
+    geo = r.get('geo_edges') or []
+    if geo:
+        items = ['(%s, %s, %s, %s, %s)' % (cpoly(st['before']), cz(st['a']), cz(st['b']),
+                                           'true' if st['ok'] else 'false', cpoly(st['after'])) for st in geo]
+        L.append(f'Definition {nm}_geo : list (poly * Z * Z * bool * poly) := {lib.coq_list(items)}.')
+        # same acceptance and identical cell as ModelEdge.remove_one_edge
+        checks.append(('geo_edge_model', "forallb (fun s => let '(p, a, b, ok, p2) := s in "
+                       f"chk_remove_edge p a b ok p2) {nm}_geo"))
+        # C20_remove_one_edge_wf / _volume on the real step: balance kept; volume kept when the
+        # fused faces are coplanar (planar_b, exact rationals)
+        checks.append(('geo_edge_wf', "forallb (fun s => let '(p, a, b, ok, p2) := s in "
+                       f"wf_poly_b p && wf_poly_b p2) {nm}_geo"))
+        checks.append(('geo_edge_volume', "forallb (fun s => let '(p, a, b, ok, p2) := s in "
+                       f"chk_edge_vol {nm}_inpos p a b ok p2) {nm}_geo"))
     if r.get('ok'):
         L.append(f'Definition {nm}_out : list poly := {cpolys(r["out_polys"])}.')
         L.append(f'Definition {nm}_outpos : list (V3 Q) := {cpos(r["out_pos"])}.')
@@ -745,6 +795,12 @@ def eval_runs(ctx, rjobs, rres):
         block = L + [f'Goal True. idtac "@@ {nm}". Abort.',
                      'Eval vm_compute in map fst (filter (fun c => negb (snd c)) ' +
                      lib.coq_list([f'({cz(i)}, {e})' for i, (_, e) in enumerate(checks)]) + ').']
+        if r.get('geo_edges'):
+            # how many steps were accepted with coplanar fused faces (the non-trivial
+            # instances of C20_remove_one_edge_volume)
+            block += [f'Goal True. idtac "@@ {nm}_geoplanar". Abort.',
+                      "Eval vm_compute in Z.of_nat (List.length (filter (fun s => let '(p, a, b, ok, p2) := s in "
+                      f"ok && planar_b {nm}_inpos (fused_nodes p a b)) {nm}_geo))."]
         if len(r['in_polys']) > 400:
             big.append((nm, block))          # evaluated in a file of its own
         else:
@@ -771,20 +827,50 @@ def eval_runs(ctx, rjobs, rres):
         merged_vertices = False
         vanished = 0
         regime = 'no-output'
+        no_merge_domain = False
         if ok:
             nc = [v for v in r['node_conv'] if v >= 0]
             merged_vertices = len(nc) != len(set(nc))
             vanished = sum(1 for v in r['elem_conv'] if v < 0)
+            # DOMAIN OF THE VOLUME CLAUSE, decided from the input and the parameters only:
+            # (a) dist_thresh below the smallest distance of two nodes: no vertices may be merged;
+            # (b) cos_thresh above every non-flat dihedral cosine (all-cells rule of
+            #     remove_edges): only coplanar faces may be fused -- the hypothesis of
+            #     C20_remove_one_edge_volume; fusing across a non-flat edge cannot conserve
+            #     volume (C20_example_nonplanar_fusion_changes_volume) and is the lossy use
+            #     of the compressor that its docstring describes, so such runs are outside
+            #     the clause (no claim, no finding)
+            d2 = min_node_dist2(r['in_polys'], r['in_pos'])
+            dt = Fr(job['dist_thresh'])
+            no_merge_domain = d2 is not None and dt >= 0 and dt * dt * Fr(1000001, 1000000) < d2
             c2 = max_noncoplanar_cos2(r['merge_polys'], r['in_pos'])
             thr = Fr(job['cos_thresh']) - Fr(1, 10 ** 6)
             coplanar_only = thr > 0 and thr * thr > c2
-            regime = ('vertices-merged' if merged_vertices else
-                      'coplanar-only' if coplanar_only else 'noncoplanar-merge-allowed')
+            regime = ('vertices-may-merge' if not no_merge_domain else
+                      'coplanar-only' if coplanar_only else 'noncoplanar-fusion-allowed')
+            ctx.count('run_vertices_merged:' + ('yes' if merged_vertices else 'no'))
+            if no_merge_domain and merged_vertices:
+                ctx.violation('impl-violation', {'jobs': {'runs': [strip_x(job)]}},
+                              'no vertices merged: dist_thresh is below the distance of the closest '
+                              'pair of nodes (dist_thresh^2 = %s < %s)' % (dt * dt, d2),
+                              'node_conv maps two nodes in use to the same compressed node',
+                              'verified-oracle test: precondition of the volume clause',
+                              signature={'check': 'no-merge', 'descr': descr},
+                              what='vertices were merged although no two nodes are closer than dist_thresh')
         ctx.count('run_regime:' + regime)
         ctx.case(['run', descr], nontrivial=ok and len(r['out_polys']) < len(r['in_polys']),
                  sample={'run': descr, 'cells': [len(r['in_polys']), len(r.get('out_polys', []))],
                          'nodes': [len(r['in_pos']), len(r.get('out_pos', []))], 'regime': regime}
                  if len(summary) < 2 else None)
+        gp = parts.get(nm + '_geoplanar')
+        if gp is not None:
+            import re as _re
+            mm = _re.search(r'=\s*(\d+)', gp if isinstance(gp, str) else '\n'.join(gp))
+            if mm:
+                ctx.corr['remove_one_edge_geo_steps'] = ctx.corr.get('remove_one_edge_geo_steps', 0) + \
+                    len(r.get('geo_edges') or [])
+                ctx.corr['remove_one_edge_geo_planar_accepted'] = \
+                    ctx.corr.get('remove_one_edge_geo_planar_accepted', 0) + int(mm.group(1))
         summary.append({'run': descr, 'compress_returned': ok, 'regime': regime, 'failed_checks': failed,
                         'cells': [len(r['in_polys']), len(r.get('out_polys', []))],
                         'vanished_cells': vanished, 'secs': r.get('secs')})
@@ -797,18 +883,33 @@ def eval_runs(ctx, rjobs, rres):
                               'correspondence merge_elements ~ Model.merge',
                               signature={'check': 'run-merge', 'failed': name, 'descr': descr},
                               what='merge step of a brick run disagrees with the model')
+            elif name in ('geo_edge_model', 'geo_edge_wf', 'geo_edge_volume'):
+                ctx.corr['disagreements'] += 1
+                ctx.violation('correspondence', {'jobs': {'runs': [strip_x(job)]}},
+                              {'geo_edge_model': 'ModelEdge.remove_one_edge (same acceptance, same cell)',
+                               'geo_edge_wf': 'edge balance kept (C20_remove_one_edge_wf)',
+                               'geo_edge_volume': 'volume kept when the fused faces are coplanar '
+                                                  '(C20_remove_one_edge_volume)'}[name],
+                              name + ' is false', 'correspondence remove_one_edge_from_polyhedron ~ '
+                              'ModelEdge.remove_one_edge on merged cells of a run',
+                              signature={'check': 'geo-edge', 'failed': name, 'descr': descr},
+                              what='edge removal on a real merged cell disagrees with the model / theorem')
             elif name in ('volume_total', 'volume_per_cell'):
-                if regime == 'vertices-merged':
-                    continue          # the property claims volume only when no vertices are merged
+                if regime != 'coplanar-only':
+                    # outside the domain of the volume clause (vertices may be merged, or
+                    # cos_thresh admits the fusion of non-coplanar faces): recorded, not judged
+                    if name == 'volume_total':
+                        ctx.count('volume_changed_outside_domain:' + regime)
+                    continue
                 if name == 'volume_per_cell' and 'volume_total' in failed:
                     continue
                 ctx.violation('impl-violation', {'jobs': {'runs': [strip_x(job)]}},
                               'volume of the compressed mesh = volume of the input (exact, rationals)',
-                              name + ' is false', 'verified-oracle test (volQ evaluated in Coq)',
-                              signature={'check': 'volume', 'regime': regime} if
-                              regime == 'noncoplanar-merge-allowed' else
-                              {'check': 'volume', 'regime': regime, 'failed': name, 'descr': descr},
-                              what='compressed mesh has a different volume although no vertices were merged')
+                              name + ' is false', 'verified-oracle test (volQ evaluated in Coq); '
+                              'C20_merge_volume + C20_remove_one_edge_volume + C20_reindex_volume_id',
+                              signature={'check': 'volume', 'regime': regime, 'failed': name, 'descr': descr},
+                              what='compressed mesh has a different volume although no vertices may be '
+                                   'merged and only coplanar faces may be fused')
             elif name == 'cells_balanced':
                 if 'cells_closed' not in failed:
                     ctx.notes.setdefault('unbalanced_but_closed_outputs', []).append(descr)
@@ -1044,7 +1145,8 @@ def main(ctx):
                 'repeated node); non-trivial = at least two cells in IDS.  (b) whole compress runs on '
                 'hex/tet/prism/pyramid bricks (1-4 cells per axis) under integer affine maps (identity, shear, 3x '
                 'rotation, 3x reflection), dyadic scale, sparse/shuffled node ids, elem_num, cos_thresh, '
-                'dist_thresh swept; non-trivial = compress returned a mesh with fewer cells.  (c) every '
+                'dist_thresh swept, length units down to 2^-36; non-trivial = compress returned a mesh with '
+                'fewer cells.  (c) every '
                 'transfer function x kind x data shape ((N,1),(N,),(N,3)) x knn on those runs; '
                 'distinct = distinct (inputs, parameters)')
     ctx.trusted += [
@@ -1057,9 +1159,14 @@ def main(ctx):
         '(exact rational dihedral cosines)',
         'the drivers remove_edges (which edges are tried, angle test) / remove_vertices_2 / merge_vertices / '
         'shrink and the k-NN construction of the conversion matrices are NOT modelled (the per-cell step '
-        'remove_one_edge, reindex and recalc_node_pos are): they are covered only by the '
+        'remove_one_edge with its edge-multiset / balance / coplanar-volume theorems, reindex and '
+        'recalc_node_pos are): they are covered only by the '
         'verified-oracle TEST on whole runs (closed_b, uses_exactly_b, exact volume evaluated in Coq '
         'on the actual output)',
+        'domain of the volume clause (harness glue, exact rationals): dist_thresh below the smallest node '
+        'distance (no vertices may be merged) and cos_thresh above every non-flat dihedral cosine under '
+        'remove_edges\' all-cells rule (only coplanar faces may be fused = hypothesis planar_at of '
+        'C20_remove_one_edge_volume); outside it no volume claim is made',
     ]
     ctx.assumptions += ['arithmetic modelled as exact (reals); the implementation computes in binary64',
                         'inputs of the whole-run test are bricks with integer/dyadic coordinates so that '
@@ -1083,7 +1190,7 @@ def main(ctx):
             jobs['merge'].append(j)
     lib_ok = (lib.COQ / 'C20' / 'Harness.vo').exists()
     if lib_ok:
-        evaluate(ctx, jobs, 1500 if thorough else 220)
+        evaluate(ctx, jobs, 1500 if thorough else 480)
     else:
         ctx.violation('proof-broken', {}, 'coq/C20 builds', log[-800:], 'coq/C20/Harness.vo',
                       found_input=False, signature={'check': 'build', 'symptom': 'model does not compile'})
@@ -1092,9 +1199,12 @@ def main(ctx):
         ctx.violation('proof-broken', {}, 'all theorems of C20/Props.v check', 'do not check: ' + ', '.join(bad),
                       ', '.join(bad), found_input=False, signature={'check': 'proof', 'bad': bad})
     ctx.notes['labels'] = {
-        'proof': 'C20_merge_* / C20_mean_* / C20_sum_* / C20_*_b_iff (Coq, all inputs)',
+        'proof': 'C20_merge_* / C20_remove_one_edge_* / C20_reindex_* / C20_mean_* / C20_sum_* / C20_*_b_iff '
+                 '(Coq, all inputs)',
         'correspondence': 'merge_polyhedrons and merge_elements vs Model.merge; reindex/recalc_node_pos vs '
-                          'ModelReindex; remove_one_edge_from_polyhedron vs ModelEdge (exact); transfer results vs '
+                          'ModelReindex; remove_one_edge_from_polyhedron vs ModelEdge (exact; synthetic cells and '
+                          'merged cells of the runs, there with planar_b / volQ instances of '
+                          'C20_remove_one_edge_volume); transfer results vs '
                           'Model.mean_tr / sum_tr / sum_tr_broadcast (evaluated in Coq)',
         'test_with_verified_oracle': 'whole compress runs: closed_b, uses_exactly_b, conn_ok_b, volQ '
                                      'evaluated in Coq on the actual output (not a proof)'}
